@@ -72,6 +72,9 @@ def _build(r, ctx):
         return O.ConstantDiagLinearOperator(_mat(r["c"], ctx), diag_shape=r["n"])
     if op == "Identity":
         # (device given explicitly: the default device=None makes `.device` None, which e.g. cat() compares)
+        if r.get("nodt") and r["dt"] == "f32":
+            # the dtype argument left to its documented default (torch.float): the same operator, another constructor call
+            return O.IdentityLinearOperator(r["n"], batch_shape=torch.Size(r["batch"]), device=torch.device("cpu"))
         return O.IdentityLinearOperator(r["n"], batch_shape=torch.Size(r["batch"]), dtype=TORCH_DT[r["dt"]], device=torch.device("cpu"))
     if op == "Zero":
         return O.ZeroLinearOperator(*r["sizes"], dtype=TORCH_DT[r["dt"]])
